@@ -205,6 +205,31 @@ def check(case):
         for i in (0, 1):
             require(c4.permeances[k][i].units == build.KG and relerr(c4.permeances[k][i].value, perms[i]) <= 1e-13,
                     "curve given fluxes and permeances (%s) exposes %r", unit, c4.permeances[k][i])
+    # the same permeances tabulated in the case's unit (DiffusionCurve.from_frame, the CSV layout): exposed in kg, fluxes = P x pf
+    if "builtin" in case["mixture"]:
+        import pandas
+
+        from pyvaporation.diffusion_curve.diffusion_curve import DC_SET_COLUMNS
+
+        n = len(feed)
+        frame = pandas.DataFrame({
+            "curve_id": ["1"] * n, "membrane_name": ["M"] * n, "mixture": [build.fresh(case["mixture"]["builtin"])] * n,
+            "feed_temperature": [case["T"]] * n, "permeate_temperature": [None] * n, "permeate_pressure": [None] * n,
+            "composition": [c.p for c in feed], "composition_type": [build.fresh(c.type) for c in feed],
+            "partial_flux_1": [None] * n, "partial_flux_2": [None] * n,
+            "permeance_1": [sup[k][0].value for k in range(n)], "permeance_2": [sup[k][1].value for k in range(n)],
+            "units": [build.fresh(unit)] * n, "comment": [None] * n})[DC_SET_COLUMNS]
+        c5 = call(build.curve_from_frame, frame)
+        require(not is_raised(c5), "curve tabulated with permeances in %s raised %r", unit, c5)
+        for k in range(n):
+            for i in (0, 1):
+                require(c5.permeances[k][i].units == build.KG and relerr(c5.permeances[k][i].value, perms[i]) <= 1e-13,
+                        "curve tabulated with permeances in %s exposes %r, expected %r kg/(m2 h kPa)", unit, c5.permeances[k][i], perms[i])
+                # (the table path converts mole-fraction points to mass fractions first: one rounding of the composition)
+                require(relerr(c5.partial_fluxes[k][i], perms[i] * pfs[k][i]) <= 1e-9,
+                        "curve tabulated with permeances in %s: flux %r != permeance x feed partial pressure %r", unit,
+                        float(c5.partial_fluxes[k][i]), perms[i] * pfs[k][i])
+        classes.append("tabulated")
     return {"nontrivial": nontrivial, "classes": classes, "known": known}
 
 
